@@ -19,6 +19,12 @@ import (
 
 const modPath = "github.com/safing/portbase"
 
+// BaselineFile lists the functions declared on the tree the rules were confirmed on; NoNormalize switches A11 off.
+var (
+	BaselineFile = "/verif/baseline_funcs.txt"
+	NoNormalize  = false
+)
+
 // Ctx is the loaded, type-checked and SSA-built program of /repo.
 type Ctx struct {
 	RepoDir string
@@ -35,8 +41,9 @@ type Ctx struct {
 	allFuncs []*ssa.Function          // every repo function incl. anonymous
 	cg       *callgraph.Graph
 
-	NFuncs int
-	curPkg string // scratch: package of the function a rule is currently looking at
+	NFuncs    int
+	NormNotes []string // what the helper normalisation (normalize.go) did
+	curPkg    string   // scratch: package of the function a rule is currently looking at
 }
 
 func short(path string) string {
@@ -84,6 +91,11 @@ func Load(repo string, env []string, overlayFile string) (*Ctx, error) {
 	if nerr > 0 {
 		return nil, fmt.Errorf("%d load/type errors, e.g. %s", nerr, strings.Join(errs, "; "))
 	}
+	var normNotes []string
+	if !NoNormalize {
+		pkgs, normNotes = normalizeHelpers(cfg, pkgs, loadBaseline(BaselineFile))
+	}
+	c.NormNotes = normNotes
 	for _, p := range pkgs {
 		if p.PkgPath == modPath || strings.HasPrefix(p.PkgPath, modPath+"/") {
 			c.Pkgs = append(c.Pkgs, p)
